@@ -214,6 +214,7 @@ theorem conserve_step {s s' : QState} {ev : Ev} (hc : Conserve (core s)) (h : st
   | clone => rw [other_core h (by intro p; simp) (by intro c; simp)]; exact hc
   | dropHandle => rw [other_core h (by intro p; simp) (by intro c; simp)]; exact hc
   | forget => rw [other_core h (by intro p; simp) (by intro c; simp)]; exact hc
+  | setSubscriber b => rw [other_core h (by intro p; simp) (by intro c; simp)]; exact hc
   | dropJoinBegin => rw [other_core h (by intro p; simp) (by intro c; simp)]; exact hc
   | dropJoinUnpark => rw [other_core h (by intro p; simp) (by intro c; simp)]; exact hc
   | dropJoinEnd => rw [other_core h (by intro p; simp) (by intro c; simp)]; exact hc
